@@ -286,3 +286,107 @@ func genC06(t *rapid.T) *Scenario {
 	sc.NoFinish = rapid.IntRange(0, 3).Draw(t, "nofinish") == 0
 	return sc
 }
+
+// ---- C08: the unbounded channel
+
+func genC08(t *rapid.T) *Scenario {
+	sc := &Scenario{Prop: "C08", Stage: "unbound", Caps: []int{rapid.IntRange(0, 4).Draw(t, "cap")}}
+	sc.Mode = rapid.SampledFrom([]string{"cancel", "cancel", "close"}).Draw(t, "end")
+	n := rapid.IntRange(0, 40).Draw(t, "scriptLen")
+	kinds := []string{"send", "send", "send", "send", "burst", "burst", "burst", "recv", "recv", "recv", "recv", "drain", "drain"}
+	for j := 0; j < n; j++ {
+		m := Move{K: rapid.SampledFrom(kinds).Draw(t, "k")}
+		if m.K == "burst" {
+			m.M = rapid.IntRange(1, 8).Draw(t, "m")
+			if rapid.IntRange(0, 19).Draw(t, "big") == 0 {
+				m.M = rapid.IntRange(50, 200).Draw(t, "mbig")
+			}
+		}
+		sc.Script = append(sc.Script, m)
+	}
+	// how the stream ends: by class
+	switch rapid.SampledFrom([]string{"harness", "harness", "cancel-with-backlog", "racing-sends", "close-with-backlog"}).Draw(t, "endclass") {
+	case "cancel-with-backlog":
+		sc.Script = append(sc.Script, Move{K: "burst", M: rapid.IntRange(1, 6).Draw(t, "backlog")}, Move{K: "cancel"})
+	case "racing-sends":
+		sc.Script = append(sc.Script, Move{K: "batch", Sub: []Move{{K: "burst", M: rapid.IntRange(1, 6).Draw(t, "racing")}, {K: "cancel"}}})
+	case "close-with-backlog":
+		sc.Script = append(sc.Script, Move{K: "burst", M: rapid.IntRange(1, 6).Draw(t, "backlog")}, Move{K: "close"})
+	}
+	return sc
+}
+
+// ---- C11: Emit / Unfold on the virtual clock
+
+func genPattern(t *rapid.T, label string, maxLen, maxGap, maxCount int) [][2]int {
+	n := rapid.IntRange(0, maxLen).Draw(t, label+"Len")
+	var out [][2]int
+	for j := 0; j < n; j++ {
+		out = append(out, [2]int{rapid.IntRange(0, maxGap).Draw(t, label+"Gap"), rapid.IntRange(1, maxCount).Draw(t, label+"Count")})
+	}
+	return out
+}
+
+func genC11(t *rapid.T) *Scenario {
+	sc := &Scenario{Prop: "C11", Stage: rapid.SampledFrom([]string{"emit", "emit", "unfold"}).Draw(t, "stage")}
+	genFunc(t, sc)
+	sc.Caps = []int{rapid.IntRange(0, 4).Draw(t, "cap")}
+	sc.Unit = rapid.SampledFrom([]int{1, 1000000, 1000000000}).Draw(t, "unit")
+	sc.Freq = rapid.IntRange(1, 3).Draw(t, "freq")
+	sc.N = rapid.IntRange(1, 14).Draw(t, "values")
+	sc.Mode = "pure"
+	if sc.Stage == "emit" {
+		sc.Mode = rapid.SampledFrom([]string{"pure", "pure", "try", "lift"}).Draw(t, "mode")
+		if sc.Mode != "pure" {
+			sc.Fail = rapid.SliceOfNDistinct(rapid.IntRange(0, 14), 0, 6, rapid.ID[int]).Draw(t, "fail")
+		}
+	} else {
+		sc.Seed = rapid.IntRange(0, 100).Draw(t, "seed")
+		if rapid.IntRange(0, 3).Draw(t, "lift") == 0 {
+			sc.Mode = "lift"
+			sc.Fail = rapid.SliceOfNDistinct(rapid.IntRange(0, 100), 0, 30, rapid.ID[int]).Draw(t, "fail")
+		}
+	}
+	// consumer: always ready, or with idle gaps
+	if rapid.IntRange(0, 2).Draw(t, "idle") > 0 {
+		sc.T.Consume = genPattern(t, "consume", 6, 8, 4)
+	}
+	if rapid.IntRange(0, 2).Draw(t, "cancelMid") == 0 {
+		sc.T.CancelAt = rapid.IntRange(1, 30).Draw(t, "cancelAt")
+	}
+	return sc
+}
+
+// ---- C13: Throttling on the virtual clock
+
+func genC13(t *rapid.T) *Scenario {
+	sc := &Scenario{Prop: "C13", Stage: "throttle"}
+	sc.Ops = rapid.IntRange(1, 5).Draw(t, "ops")
+	sc.Interval = rapid.IntRange(1, 4).Draw(t, "interval")
+	sc.Unit = rapid.SampledFrom([]int{1000000, 1000000000, 7}).Draw(t, "unit")
+	sc.Caps = []int{rapid.IntRange(0, 3).Draw(t, "cap")}
+	n := rapid.IntRange(0, 30).Draw(t, "len")
+	in := make([]int, n)
+	for i := range in {
+		in[i] = i + 1
+	}
+	sc.In = [][]int{in}
+	switch rapid.SampledFrom([]string{"saturated", "saturated", "idle-consumer", "idle-input", "random", "random"}).Draw(t, "class") {
+	case "saturated":
+	case "idle-consumer":
+		// input always available; the consumer stalls for several intervals, then drains fast
+		sc.T.Consume = [][2]int{{rapid.IntRange(0, 2).Draw(t, "g0") * sc.Interval, rapid.IntRange(0, 3).Draw(t, "r0")},
+			{rapid.IntRange(2, 10).Draw(t, "stall") * sc.Interval, rapid.IntRange(1, 4).Draw(t, "r1")}}
+	case "idle-input":
+		// consumer always ready; the input pauses for several intervals, then a burst arrives
+		sc.T.Arrive = [][2]int{{0, rapid.IntRange(0, 4).Draw(t, "b0")}, {rapid.IntRange(2, 10).Draw(t, "pause") * sc.Interval, rapid.IntRange(1, 12).Draw(t, "b1")},
+			{rapid.IntRange(0, 6).Draw(t, "pause2") * sc.Interval, rapid.IntRange(1, 12).Draw(t, "b2")}}
+	default:
+		sc.T.Arrive = genPattern(t, "arrive", 5, 12, 8)
+		sc.T.Consume = genPattern(t, "consume", 5, 12, 8)
+	}
+	if rapid.IntRange(0, 5).Draw(t, "cancelMid") == 0 {
+		sc.T.CancelAt = rapid.IntRange(1, 40).Draw(t, "cancelAt")
+	}
+	return sc
+}
